@@ -197,7 +197,11 @@ _SUMMARY_OK = re.compile(r"^(\d+) files checked, .*Refactoring not necessary.*$"
 
 def parse_check_output(out):
     """-> {'findings': [(path, line, col, length, symbol, name)], 'files_checked': n|None, 'need_refactoring': n|None,
-    'other': [unparsed lines]}"""
+    'other': [lines that are neither], 'summary_numbers': None | [ints]}
+
+    The summary is first read in today's wording (then files_checked / need_refactoring are exact). When no line has that
+    wording - the message was reworded - the integers of the non-finding lines are handed out as 'summary_numbers' and
+    the callers only require the expected counts to be among them: a reworded message is no violation of any property."""
     findings, other = [], []
     files_checked = need = None
     for ln in out.splitlines():
@@ -216,4 +220,26 @@ def parse_check_output(out):
             findings.append((m.group("path"), int(m.group("line")), int(m.group("col")), int(m.group("len")), m.group("sym"), m.group("name")))
         else:
             other.append(ln)
-    return {"findings": findings, "files_checked": files_checked, "need_refactoring": need, "other": other}
+    numbers = None
+    if files_checked is None and other:
+        numbers = [int(x) for ln in other for x in re.findall(r"\d+", ln)]
+    return {"findings": findings, "files_checked": files_checked, "need_refactoring": need, "other": other, "summary_numbers": numbers}
+
+
+def summary_matches(parsed, files_expected, need_expected):
+    """None if the summary agrees with the expected counts, else a short description. Exact in today's wording; for a
+    reworded summary the counts only have to occur in it (a function count of 0 may be left unsaid)."""
+    if parsed["files_checked"] is not None:
+        if parsed["need_refactoring"] != need_expected:
+            return f"summary says {parsed['need_refactoring']} functions need refactoring, expected {need_expected}"
+        if parsed["files_checked"] != files_expected:
+            return f"summary says {parsed['files_checked']} files checked, expected {files_expected}"
+        return None
+    nums = parsed["summary_numbers"]
+    if nums is None:
+        return "no summary line"
+    if need_expected and need_expected not in nums:
+        return f"no summary figure equals the {need_expected} functions that need refactoring (figures {nums})"
+    if files_expected not in nums:
+        return f"no summary figure equals the {files_expected} files checked (figures {nums})"
+    return None
